@@ -26,6 +26,8 @@ RoundTrip(r) ==
       /\ r.tail_equal = TRUE
       /\ DiffOk(r)
       /\ r.reparsed_equal = TRUE /\ r.rewritten_equal = TRUE
+      \* a sink that takes only a few bytes of each request receives the same bytes
+      /\ (Has(r, "short_equal") => r.short_equal = TRUE)
 
 \* ---- C16
 \* `o` are the offsets reported by the object that wrote the bytes In(r)
@@ -155,7 +157,8 @@ Digests(r) ==
 WellFormedPkg(r) ==
     /\ LeadOk(In(r)) /\ HdrChkLoose(In(r), SigAt, 62)
     /\ HdrFits(In(r)) /\ HdrChkLoose(In(r), HdrAt(In(r)), 63)
-Readable(r) == WellFormedPkg(r) => r.accepted
+\* ... and so can it when a buffered source hands the same bytes over in two pieces
+Readable(r) == WellFormedPkg(r) => r.accepted /\ (Has(r, "accepted_split") => r.accepted_split = TRUE)
 
 \* every clause the event violates, as labels "<property>:<detail>" (the driver attributes them)
 Whys(r) ==
